@@ -9,13 +9,13 @@ import (
 // ---- alphabet -----------------------------------------------------------------
 
 // action is one API call: POST /dags/{DagID} with an action body. Symbolic request ids
-// ("latest", "older", "other-dag", "unknown") are resolved against the installation when issued.
+// ("latest", "middle", "older", "other-dag", "unknown") are resolved against the installation when issued.
 type action struct {
 	Key    string `json:"key"`           // name in the alphabet
 	Dag    string `json:"dag"`           // addressed DAG id
 	Act    string `json:"act,omitempty"` // body.action ("" = action field absent)
 	Params string `json:"params,omitempty"`
-	Req    string `json:"req,omitempty"` // "", latest, older, other-dag, unknown
+	Req    string `json:"req,omitempty"` // "", latest, middle, older (= oldest), other-dag, unknown
 	Step   string `json:"step,omitempty"`
 	Value  string `json:"value,omitempty"`
 }
@@ -71,6 +71,15 @@ var alphabet = []action{
 	{Key: "d2:start", Dag: "d2", Act: "start"},
 	{Key: "d2:stop", Dag: "d2", Act: "stop"},
 	{Key: "d2:mark-failed(latest,t1)", Dag: "d2", Act: "mark-failed", Req: "latest", Step: "t1"},
+	// the middle one of three recorded runs (only issued from base states that record three runs of d1)
+	{Key: "mark-success(middle,s2)", Dag: "d1", Act: "mark-success", Req: "middle", Step: "s2"},
+	{Key: "mark-failed(middle,s1)", Dag: "d1", Act: "mark-failed", Req: "middle", Step: "s1"},
+	{Key: "retry(middle)", Dag: "d1", Act: "retry", Req: "middle"},
+}
+
+// applicable: actions addressing "the middle run" exist only where d1 has three runs on record.
+func applicable(b base, a action) bool {
+	return a.Req != "middle" || len(runsOf(b, a.Dag)) >= 3
 }
 
 var actionByKey = func() map[string]action {
@@ -81,21 +90,110 @@ var actionByKey = func() map[string]action {
 	return m
 }()
 
-// base states: state of d1 / state of d2
+// base states: state of d1 / state of d2.
+//
+// IDs = "" : the original bases — two runs on record per DAG (one finished run + the live one when running),
+// request ids distinct in their first 8 characters.
+// IDs != "": d1 has three runs (Hist = states of the two older ones, oldest first, then D1; when D1 is
+// running: Hist + the live run), d2 has two; the request ids of ALL runs of the installation come from
+// one family with respect to the 8 characters the history store puts into a run's file name:
+//
+//	distinct-8   full-length ids, pairwise distinct in their first 8 characters
+//	shared-8     full-length ids that all share their first 8 characters (both DAGs)
+//	nested       per DAG: a 4-character id, a 6-character id extending it, a full-length id extending both;
+//	             shortest = oldest
+//	nested-rev   the same ids, shortest = newest
 type base struct {
-	Name string `json:"name"`
-	D1   string `json:"d1"`
-	D2   string `json:"d2"`
+	Name        string   `json:"name"`
+	D1          string   `json:"d1"`
+	D2          string   `json:"d2"`
+	IDs         string   `json:"ids,omitempty"`
+	Hist        []string `json:"hist,omitempty"`
+	Depth1Quick bool     `json:"depth1_quick,omitempty"` // quick tier: sequences of one action only
 }
 
 var bases = []base{
-	{"never-run", "none", "finished"},
-	{"finished", "finished", "finished"},
-	{"failed", "failed", "finished"},
-	{"canceled", "canceled", "finished"},
-	{"crashed", "crashed", "finished"},
-	{"running", "running", "finished"},
-	{"finished+other-running", "finished", "running"},
+	{Name: "never-run", D1: "none", D2: "finished"},
+	{Name: "finished", D1: "finished", D2: "finished"},
+	{Name: "failed", D1: "failed", D2: "finished"},
+	{Name: "canceled", D1: "canceled", D2: "finished"},
+	{Name: "crashed", D1: "crashed", D2: "finished"},
+	{Name: "running", D1: "running", D2: "finished"},
+	{Name: "finished+other-running", D1: "finished", D2: "running"},
+	// three recorded runs of d1 (failed, finished, failed), request ids of every family
+	{Name: "3-runs/failed/ids-distinct-8", D1: "failed", D2: "finished", IDs: "distinct-8", Hist: []string{"failed", "finished"}},
+	{Name: "3-runs/failed/ids-shared-8", D1: "failed", D2: "finished", IDs: "shared-8", Hist: []string{"failed", "finished"}},
+	{Name: "3-runs/failed/ids-nested", D1: "failed", D2: "finished", IDs: "nested", Hist: []string{"failed", "finished"}},
+	{Name: "3-runs/finished/ids-nested-rev", D1: "finished", D2: "failed", IDs: "nested-rev", Hist: []string{"failed", "failed"}, Depth1Quick: true},
+	{Name: "3-runs/crashed/ids-shared-8", D1: "crashed", D2: "finished", IDs: "shared-8", Hist: []string{"finished", "failed"}, Depth1Quick: true},
+	{Name: "3-runs/running/ids-shared-8", D1: "running", D2: "finished", IDs: "shared-8", Hist: []string{"failed", "finished"}},
+}
+
+// recRun is one run of a base state (Live: the run of the in-process agent, not written by the harness).
+type recRun struct {
+	ID, State string
+	Age       int // seconds before the member starts
+	Live      bool
+}
+
+// runsOf: the runs of one DAG in a base state, oldest first.
+func runsOf(b base, dag string) []recRun {
+	st := map[string]string{"d1": b.D1, "d2": b.D2}[dag]
+	if st == "" || st == "none" {
+		return nil
+	}
+	states := []string{"finished"}
+	if b.IDs != "" && dag == "d1" {
+		states = append([]string(nil), b.Hist...)
+	}
+	states = append(states, st)
+	slots := map[int][]string{2: {"old", "new"}, 3: {"old", "mid", "new"}}[len(states)]
+	var out []recRun
+	for i, s := range states {
+		slot := slots[i]
+		if s == "running" {
+			slot = "liv"
+		}
+		out = append(out, recRun{ID: idOf(b.IDs, dag, slot, i, len(states)), State: s, Age: 2 * (len(states) - i), Live: s == "running"})
+	}
+	return out
+}
+
+// idOf: request id of the run in `slot` (position pos of n, oldest first) of a DAG under an id family.
+func idOf(family, dag, slot string, pos, n int) string {
+	switch family {
+	case "shared-8":
+		return fmt.Sprintf("5ha2ed8p-%s0-0000-0000-00000000%s", slot, dag)
+	case "nested", "nested-rev":
+		ids := []string{dag + "r7", dag + "r7c2", dag + "r7c2e9-0000-0000-0000-0000000000" + dag}
+		if n == 2 {
+			ids = []string{ids[0], ids[2]}
+		}
+		if family == "nested-rev" {
+			pos = n - 1 - pos
+		}
+		return ids[pos]
+	}
+	return runID(dag, slot)
+}
+
+// trunc8: the part of a request id the history store puts into the file name.
+func trunc8(id string) string {
+	if len(id) > 8 {
+		return id[:8]
+	}
+	return id
+}
+
+// allIDs: every request id on record in a base state, plus the unknown one.
+func allIDs(b base) []string {
+	var out []string
+	for _, d := range []string{"d1", "d2"} {
+		for _, r := range runsOf(b, d) {
+			out = append(out, r.ID)
+		}
+	}
+	return append(out, unknownID)
 }
 
 func (b base) live() bool { return b.D1 == "running" || b.D2 == "running" }
@@ -124,12 +222,8 @@ func newModel(b base) *refModel {
 	m := &refModel{D: map[string]*dagModel{}}
 	for _, d := range []struct{ n, s string }{{"d1", b.D1}, {"d2", b.D2}} {
 		dm := &dagModel{State: d.s, Steps: stepsOf[d.n]}
-		switch d.s {
-		case "none":
-		case "running":
-			dm.Runs = []string{runID(d.n, "old"), runID(d.n, "liv")}
-		default:
-			dm.Runs = []string{runID(d.n, "old"), runID(d.n, "new")}
+		for _, r := range runsOf(b, d.n) {
+			dm.Runs = append(dm.Runs, r.ID)
 		}
 		m.D[d.n] = dm
 	}
@@ -148,8 +242,14 @@ func (m *refModel) resolve(a action) string {
 		if d == nil || len(d.Runs) == 0 {
 			return unknownID // a DAG that never ran has no run to address
 		}
-		if which == "older" {
+		switch which {
+		case "older":
 			return d.Runs[0]
+		case "middle":
+			if len(d.Runs) < 3 {
+				return unknownID
+			}
+			return d.Runs[len(d.Runs)/2]
 		}
 		return d.Runs[len(d.Runs)-1]
 	}
@@ -158,7 +258,7 @@ func (m *refModel) resolve(a action) string {
 		return ""
 	case "unknown":
 		return unknownID
-	case "latest", "older":
+	case "latest", "older", "middle":
 		return pick(m.D[a.Dag], a.Req)
 	case "other-dag":
 		for _, n := range []string{"d2", "d1", "d3"} {
@@ -255,7 +355,7 @@ func (m *refModel) expect(a action, req string) expect {
 		if req == "" {
 			return expect{Class: "refuse", Why: "malformed: retry without request id"}
 		}
-		return expect{Class: "silent", Why: "retry: admissibility not stated by the property"}
+		return expect{Class: "silent", Kind: "retry", Dag: a.Dag, Run: req, Why: "retry: admissibility not stated by the property (an accepted one must hand the addressed run to the command)"}
 	case "suspend":
 		return expect{Class: "silent", Why: "suspend: not stated by the property"}
 	case "save":
